@@ -671,8 +671,13 @@ func (p *Proxy) Unregister(info ServerInfo) bool {
 // DisconnectAll disconnects all current connected players
 // in parallel and waits until all players have been disconnected.
 func (p *Proxy) DisconnectAll(reason component.Component) {
+	// Copy the players to a slice while holding the lock: the map itself must not be
+	// iterated after RUnlock (the disconnects below unregister players from it).
 	p.muP.RLock()
-	players := p.playerIDs
+	players := make([]*connectedPlayer, 0, len(p.playerIDs))
+	for _, player := range p.playerIDs {
+		players = append(players, player)
+	}
 	p.muP.RUnlock()
 
 	var wg sync.WaitGroup
